@@ -297,3 +297,15 @@ def names_in(expr):
 
 def parse_expr(text):
     return ast.parse(text, mode="eval").body
+
+
+def root_name(expr, funcnode, depth=6):
+    """Follow single-assignment Name -> Name copies (x = y) to the first name that is not such a copy."""
+    d = definitions(funcnode)
+    e = expr
+    for _ in range(depth):
+        if isinstance(e, ast.Name) and e.id in d and isinstance(d[e.id], ast.Name):
+            e = d[e.id]
+        else:
+            break
+    return canon(e)
